@@ -263,6 +263,46 @@ def _check(pid, P, tier, seed, bdir, ev):
         for f in meta['functions']:
             if (pids & set(f.get('serves', []))) or (P.get('all_functions') and (f['mode'] in ('verified', 'transparent') or (f['mode'] == 'assumed' and f.get('contract_file')))):
                 serving[f['key']] = f
+        # modular verification: a caller is proved against the CONTRACT of its callees, so every contracted function that a serving function
+        # calls (transitively) is part of the property's proof.  Calls are resolved by name: `Type::f(` exactly; a bare or method name only
+        # when a single contracted function bears it (ambiguous names such as `new`, `from`, `verify` are not followed).
+        contracted = [f for f in meta['functions'] if f.get('contract_file') and f['mode'] in ('verified', 'assumed')]
+        by_name, by_qual = {}, {}
+        for f in contracted:
+            parts = f['key'].split(' :: ')
+            by_name.setdefault(parts[-1], []).append(f)
+            if len(parts) >= 3:
+                ty = re.sub(r'<.*$', '', parts[-2].split(' for ')[-1].strip())
+                by_qual.setdefault(ty + '::' + parts[-1], []).append(f)
+        src_cache = {}
+
+        def fn_src(f):
+            if f['key'] not in src_cache:
+                try:
+                    if f['file'] not in src_cache:
+                        src_cache[f['file']] = open(os.path.join(REPO, f['file'])).read().split('\n')
+                    src_cache[f['key']] = '\n'.join(src_cache[f['file']][f['lines'][0] - 1:f['lines'][1]])
+                except Exception:
+                    src_cache[f['key']] = ''
+            return src_cache[f['key']]
+        work = list(serving.values())
+        added = 0
+        while work:
+            f = work.pop()
+            src = fn_src(f)
+            cands = []
+            for q, fl in by_qual.items():
+                if len(fl) == 1 and re.search(r'\b%s\s*(::<[^;(){}]*>)?\s*\(' % re.escape(q).replace('\\:\\:', r'\s*(?:::<[^;(){}]*>)?::\s*'), src):
+                    cands.append(fl[0])
+            for nme, fl in by_name.items():
+                if len(fl) == 1 and re.search(r'(?<![\w])%s\s*(::<[^;(){}]*>)?\s*\(' % re.escape(nme), src):
+                    cands.append(fl[0])
+            for g in cands:
+                if g['key'] not in serving and g['key'] != f['key']:
+                    serving[g['key']] = g
+                    work.append(g)
+                    added += 1
+        cov.setdefault('callee_closure', {})[uname] = added
         lemma_serving = {nm: t for nm, t in tags.items() if (pids & set(t['serves'])) or 'ALL' in t['serves']}
         # per-function accounting
         for key, f in sorted(serving.items()):
